@@ -44,6 +44,9 @@ struct Case {
     /// how many of the last peers lie (1 if `liar_from` is set and this is 0)
     n_liars: usize,
     rng_seed: u64,
+    /// the full nodes are this many blocks ahead of the last state they announced (and proved):
+    /// they answer filters, hashes and check points from their own tip
+    ahead: u64,
 }
 
 fn new_sim(env: &Env, case: &Case, old: Option<Sim>) -> Sim {
@@ -54,7 +57,8 @@ fn new_sim(env: &Env, case: &Case, old: Option<Sim>) -> Sim {
     }
     let mut world = World::new(chains, cfg.cp_interval);
     for p in 1..=case.n_peers {
-        world.add_peer(p, 0, case.chain.tip_number());
+        world.add_peer(p, 0, case.chain.tip_number() - case.ahead);
+        world.peer_mut(p).ahead = case.ahead;
     }
     if case.liar_from.is_some() {
         for p in (case.n_peers + 1 - case.n_liars.max(1))..=case.n_peers {
@@ -338,6 +342,12 @@ pub(crate) fn run(opts: &Opts, report: &mut Report) {
             }
         }
     }
+    // full nodes three blocks ahead of the state they proved: only the honest history is run; the
+    // filtered height and the scripts' block numbers must never pass the proven tip, whatever
+    // the answers offer beyond it
+    for (wi, batch) in if thorough { vec![(0usize, 3u64), (0, 1000), (1, 3), (2, 5)] } else { vec![(0usize, 3u64), (0, 1000)] } {
+        items.push((wi, 1, batch, 2000, 2, "Ahead"));
+    }
     const SLICES: usize = 4;
     let n_items = items.len() * SLICES;
     let worker = crate::verif::props::shard::run("C06", opts, report, n_items, 16, |item, report| {
@@ -363,7 +373,56 @@ pub(crate) fn run(opts: &Opts, report: &mut Report) {
             liar_from: None,
             n_liars: 0,
             rng_seed: 0,
+            ahead: if target == "Ahead" { 3 } else { 0 },
         };
+        if target == "Ahead" {
+            if slice != 0 {
+                return;
+            }
+            let mut sim = new_sim(&env, &case, None);
+            let mut beyond: Option<String> = None;
+            let mut deliveries = 0u64;
+            let mut idle = 0;
+            // FIFO; after every delivery: nothing beyond the proven tip may count as filtered
+            for _ in 0..4000 {
+                if sim.queue.is_empty() {
+                    sim.advance(10);
+                    sim.tick_all();
+                    idle += 1;
+                    if idle > 6 {
+                        break;
+                    }
+                    continue;
+                }
+                idle = 0;
+                sim.deliver(0);
+                deliveries += 1;
+                let tip = sim.c().tip_number();
+                let filtered = sim.c().storage.get_min_filtered_block_number();
+                let over: Vec<u64> = oracle::rpc_scripts(sim.c()).iter().map(|(_, _, n)| *n).filter(|n| *n > tip).collect();
+                if beyond.is_none() && (filtered > tip || !over.is_empty()) {
+                    beyond = Some(format!("after {} deliveries: proven tip {}, filtered height {}, script block numbers beyond the tip {:?}", deliveries, tip, filtered, over));
+                }
+            }
+            let (_, _, converged) = sim.converge(80);
+            let view = crate::verif::world::View::new(&case.chain, case.chain.tip_number() - case.ahead);
+            let _ = view;
+            let mut bad = oracle::judge_index(sim.c(), &case.chain, &case.regs, converged);
+            bad.extend(oracle::judge_store(&sim, &case.chain));
+            if let Some(b) = beyond {
+                bad.push(("filtered-beyond-the-proven-tip".into(), b));
+            }
+            if !converged || !sim.bans().is_empty() {
+                bad.push(("stall-or-ban".into(), format!("converged={} bans={:?}", converged, sim.bans())));
+            }
+            for (class, v) in oracle::group(bad) {
+                report.violation(format!("node-ahead/{}", class), format!("[{}] {}", case.name, v[0]), json!({"case": case.name, "ahead": case.ahead}));
+            }
+            report.count("node_ahead_runs", 1);
+            report.count("transitions", deliveries);
+            report.count("cases", 1);
+            return;
+        }
         // honest reference run: how many BlockFilters messages, and it must be clean
         let mut sim = new_sim(&env, &case, None);
         let mut n_msgs = 0usize;
@@ -553,6 +612,7 @@ pub(crate) fn run(opts: &Opts, report: &mut Report) {
                         liar_from: Some(from),
                         n_liars,
                         rng_seed: seed,
+                        ahead: 0,
                     };
                     runs += 1;
                     *by_class.entry("consistent-liar".to_owned()).or_insert(0) += 1;
@@ -680,6 +740,7 @@ pub(crate) fn debug_case() {
         liar_from: liar,
         n_liars: getn("C06_LIARS", 1) as usize,
         rng_seed: getn("C06_SEED", 0),
+        ahead: getn("C06_AHEAD", 0),
     };
     let want_class = std::env::var("C06_CLASS").unwrap_or("drop-one-filter-and-hash".into());
     let want_label = std::env::var("C06_LABEL").unwrap_or("#2".into());
